@@ -9,6 +9,8 @@ SPEC = dict(
         "SymVerif.C46.lde_sound",
         "SymVerif.C46.lde_antichain",
         "SymVerif.C46.lde_complete",
+        "SymVerif.C46.lde_covers",
+        "SymVerif.C46.lde_guard",
         "SymVerif.C46.frozen_inbounds",
         "SymVerif.C46.lde_run",
         "SymVerif.C46.AInv.step",
